@@ -375,11 +375,12 @@ func init() {
 		Explanation: "Decides only the termination clause ('reading bookmarks terminates on any outline, including cyclic ones'), structurally: in pkg/pdfcpu/bookmark.go and pkg/api/bookmark.go " +
 			"(R1) every recursion component is cut by a guarded call edge (checkBookmarkRecursionDepth with the caller's depth / checkBookmarkCycle on the caller's visited set) — triage entries are not accepted here; " +
 			"(R2) every loop that follows /Next (or any other reference chain) passes checkBookmarkCycle (or an equivalent test-and-set) on every path from the loop head to the next iteration, including the `continue` paths. " +
+			"(R2s/R2p, shared with C08) reading bookmarks through the API validates the outline tree first: validate.scanAndFixOutlineItems leaves its loop towards success only by the end-of-chain test, and the unguarded walk validateOutlineTreeDepth runs only after a successful scan. " +
 			"(R3, one clause of the round trip) where a bookmark's named destination is registered with Node.Add(…, m, keys), no dictionary entry named in keys is stored after the call: the registration renames a destination whose title is already taken and rewrites those entries, and a later store would undo that, making bookmarks with equal titles share one target. " +
 			"(R4, writer/reader agreement) the outline item entries the reader takes only when present (/C → Bookmark.Color, /F → Bold/Italic) are stored by the writer under presence tests only — every branch condition that dominates the store is a nil test, a zero test or a flag, never a condition on the attribute's value (a colour or style that is skipped because it 'is the default' does not come back). " +
 			"(R5, writer/reader agreement) every source of the value stored under /Title is the byte-order-marked UTF-16BE encoder (types.EscapedUTF16String, or types.Escape over types.EncodeUTF16String, followed through wrappers' return values): that is the one form the reader decodes without its valid-UTF-8-else-PDFDocEncoding guess. " +
-			"NOT decided: the rest of the export/import round trip (pages, nesting, order, numeric colour values) — value-level.",
-		Rules:       []string{"C36.R1 SCC: bookmark recursion guarded", "C36.R2 MPT: bookmark chain loops guarded per iteration", "C36.R3 order: entries a name registration may rewrite are not stored after it", "C36.R4 agreement: optional outline entries stored under presence tests only", "C36.R5 agreement: title bytes come from the BOM-marked UTF-16BE encoder"},
+			"(R6, writer/reader agreement) XRefTable.DereferenceDestArray consults the Dests name tree — where bmDict registers the destination of an imported bookmark — before the legacy catalog /Dests dictionary on every path. NOT decided: the rest of the export/import round trip (pages, nesting, order, numeric colour values) — value-level.",
+		Rules:       []string{"C36.R1 SCC: bookmark recursion guarded", "C36.R2 MPT: bookmark chain loops guarded per iteration", "C36.R2s/R2p: the outline scan that validation runs before bookmarks are read is complete, and the unguarded outline walk runs only after it", "C36.R3 order: entries a name registration may rewrite are not stored after it", "C36.R4 agreement: optional outline entries stored under presence tests only", "C36.R5 agreement: title bytes come from the BOM-marked UTF-16BE encoder", "C36.R6 agreement: named destinations are resolved in the store the bookmark writer registers in, before the legacy /Dests dictionary"},
 		Assumptions: []string{"same call graph and guard recognition as C08"},
 		Technique:   "call-graph SCC analysis and natural-loop must-pass-through dataflow on SSA (shared with C08), restricted to the bookmark files; dominating-branch classification and value-source tracing (through callee return values) for the writer/reader agreement clauses",
 		Note:        "Partial: termination clause, plus three structural clauses of the round trip.",
@@ -547,6 +548,11 @@ func runC36(c *Ctx) {
 	}
 	r.MinInst["C36.R3"] = 2
 	checkRegisteredKeysNotRewritten(c, "C36.R3")
+	r.MinInst["C36.R6"] = 1
+	checkDestinationStoreOrder(c)
+	r.MinInst["C36.R2s"] = 1
+	r.MinInst["C36.R2p"] = 2
+	runScannersAs(c, gs, "C36")
 	r.MinInst["C36.R4"] = 2
 	r.MinInst["C36.R5"] = 1
 	checkOptionalAttributesWritten(c)
